@@ -53,6 +53,7 @@ func vCoreTables() []vTable {
 		/* 39 */ one("/a/b/c", g("/{id}"), vRoute{method: "PUT", path: "/{u}"}),
 		/* 40 */ one("/t", vRoute{method: "POST", path: "/a"}, vRoute{method: "POST", path: "/{v}", consumes: vAJ}, vRoute{method: "GET", path: "/a"}, vRoute{method: "GET", path: "/{w}", produces: vAJ}),
 		/* 41 */ one("/t", vRoute{method: "GET", path: "/a", cond: true}, vRoute{method: "GET", path: "/a", cond: true}),
+		/* 42 */ one("/t", g("/b/"), vRoute{method: "POST", path: "/b/"}, g("/b/c/"), g("/{v}/")), // templates written with a trailing slash
 	}
 }
 
